@@ -282,10 +282,8 @@ fn write_back(path: &Path, content: &str) -> Result<()> {
 }
 
 fn is_hidden(entry: &DirEntry) -> bool {
-    entry
-        .file_name()
-        .to_str()
-        .is_some_and(|s| s.starts_with('.'))
+    // Compare bytes: a name that is not valid UTF-8 is hidden all the same if it starts with a dot.
+    entry.file_name().as_encoded_bytes().starts_with(b".")
 }
 
 fn num_files(num: usize) -> String {
